@@ -13,6 +13,7 @@ import (
 	"math"
 	"os"
 	"strconv"
+	"time"
 )
 
 // Replay is the on-disk form of a counterexample (or reachability witness).
@@ -158,7 +159,11 @@ func IsSym(x any) bool { return false }
 func Symbolic() bool { return false }
 
 // Mark tells the engine's monitors that a phase starts ("freeze", "count", ...).
-func Mark(what string) {}
+func Mark(what string) {
+	if what == "quiesce" {
+		time.Sleep(30 * time.Millisecond)
+	}
+}
 
 // Counter support for laziness/impurity checks: a host-side counter that is
 // reset for every path under the engine.
